@@ -111,7 +111,7 @@ int main()
         vh::Engine e;
         std::printf("case %s\n", id.c_str());
         std::fflush(stdout);
-        verif_case_watchdog(ops.size());
+        verif_case_watchdog(ops.size(), 20);   // generous: the machine is shared, a real hang is still caught
         {
             const ProgramScript* init = e.compile("init", "main:\nlevel.ntid = 0\nend\n");
             if (init) e.director().ExecuteThread(init);
